@@ -95,6 +95,92 @@ def run_r5(chk: Check, prog: Program) -> None:
                                      "with every list handed out", witness={"statement": unparse(n)}, where=f.where)
 
 
+def run_concrete_history(chk: Check, prog: Program) -> None:
+    """Call histories over *related* texts (one text is a side, a prefix or the whole of another), with the real tokenizer
+    and parser interpreted on concrete strings: the tree the last call returns must be the tree a fresh parser returns,
+    its root must have no parent and its links must be consistent - results of earlier calls must not be linked into
+    later ones."""
+    import itertools
+    from sa.absint import AbsRaise, Interp, Node, explore
+    from sa.heapterm import HeapView
+    from sa.summaries import Summaries
+    chk.rule("C12.R7", "histories over related concrete texts (sides / prefixes of one another): the last parse equals a fresh "
+             "parser's, is a root, and has consistent links", minimum=100)
+    S = Summaries(prog)
+    pcls = prog.cls("ExpressionParser")
+    m_parse = prog.func("parser", "ExpressionParser.parse")
+    texts = ["x", "y", "x = y", "x + 1", "x + 1 = y", "y = x + 1", "2x", "-x", "x+1=x+1"]
+    seqs = [s_ for s_ in itertools.permutations(texts, 2)] + [(a, b, a) for a, b in itertools.permutations(texts, 2)]
+    if chk.tier == "quick":
+        seqs = [s_ for s_ in seqs if "=" in "".join(s_)]
+    where = m_parse.where
+
+    def audit(it, root_cid):
+        probs = []
+        cell = it.cells[root_cid]
+        par = cell.cur.get("parent", cell.entry.get("parent"))
+        if isinstance(par, Node):
+            probs.append("the returned root has a parent: it was linked into another call's tree")
+        stack, seen = [root_cid], set()
+        while stack:
+            c = stack.pop()
+            if c in seen:
+                probs.append("a node is reachable twice")
+                break
+            seen.add(c)
+            for side in ("left", "right"):
+                v = it.cells[c].cur.get(side, it.cells[c].entry.get(side))
+                if isinstance(v, Node):
+                    pv = it.cells[v.cid].cur.get("parent", it.cells[v.cid].entry.get("parent"))
+                    if not (isinstance(pv, Node) and pv.cid == c):
+                        probs.append(f"a {side} child's parent pointer does not point back")
+                    stack.append(v.cid)
+        return probs
+
+    for seq in seqs:
+        def body(it: Interp, seq=seq):
+            used = it.instantiate(pcls, [], {})
+            last = None
+            for t in seq:
+                try:
+                    last = ("ok", it.call_function(m_parse, [used, t], {}))
+                except AbsRaise as e:
+                    last = ("raise", e.exc)
+            fresh = it.instantiate(pcls, [], {})
+            try:
+                ref = ("ok", it.call_function(m_parse, [fresh, seq[-1]], {}))
+            except AbsRaise as e:
+                ref = ("raise", e.exc)
+            return last, ref
+        cfg = {"max_updepth": 0, "hooks": {k: v for k, v in S.hooks().items() if "clone" not in k}, "max_steps": 200000,
+               "max_inline": 120}
+        for p in explore(prog, body, cfg, max_paths=8):
+            label = "parse " + " ; ".join(repr(t) for t in seq)
+            if p.outcome != "return":
+                chk.undecided("C12.R7", "C12.R7:bound", label, f"{p.outcome} {p.exc or p.note}", where)
+                continue
+            it = p.interp
+            (k1, v1), (k2, v2) = p.value
+            probs = []
+            if k1 != k2:
+                probs.append(f"used parser: {k1} {v1!r}, fresh parser: {k2} {v2!r}")
+            elif k1 == "raise":
+                if v1 != v2:
+                    probs.append(f"used parser raises {v1}, fresh parser raises {v2}")
+            elif isinstance(v1, Node) and isinstance(v2, Node):
+                hv = HeapView(it, S.optable)
+                try:
+                    if hv.shape(v1.cid, "cur") != hv.shape(v2.cid, "cur") or hv.term(v1.cid, "cur") != hv.term(v2.cid, "cur"):
+                        probs.append(f"used parser returns {hv.shape(v1.cid, 'cur')}, a fresh parser {hv.shape(v2.cid, 'cur')}")
+                except Exception as e:  # noqa: BLE001
+                    probs.append(f"the returned tree cannot be read back: {e}")
+                probs += audit(it, v1.cid)
+            else:
+                probs.append(f"parse returns {v1!r}")
+            chk.verdict(not probs, "C12.R7", "C12.R7:ExpressionParser.parse:related-texts", label, "; ".join(probs),
+                        witness={"calls": list(seq), "problems": probs}, where=where)
+
+
 def run(chk: Check) -> None:
     prog = program(chk)
     chk.technique = "abstract interpretation of call-history scenarios on one parser object vs a fresh parser over symbolic " \
@@ -106,7 +192,9 @@ def run(chk: Check) -> None:
         "succeeding - the last call returns on the long-lived parser exactly what it returns on a fresh parser (same "
         "exception class / structurally identical tree / same token sequence), and the token list handed out is not the "
         "cached list object; the tokenizer stores nothing on itself outside __init__ and Tokens are never modified after "
-        "construction. Not decided: histories outside the listed scenario shapes (each is a template over all token "
+        "construction; histories of two or three parses over nine related concrete texts (one a side or prefix of another), "
+        "with the real tokenizer and parser interpreted, end in the tree a fresh parser gives, rooted and with consistent "
+        "links. Not decided: histories outside the listed scenario shapes (each is a template over all token "
         "sequences, not over all call sequences); node ids differ by history (excluded by 'structurally identical').")
     chk.assumptions = ["scenario templates", "token sequences of 2 (quick) / 3 (thorough) tokens per text"]
     scen = analyse_scenarios(str(REPO), 2 if chk.tier == "quick" else 3)
@@ -114,6 +202,7 @@ def run(chk: Check) -> None:
     run_sticky(chk, scen, pid="C12", rid="R1", names=tuple(SCENARIOS))
     run_r5(chk, prog)
     run_tokenizer_history(chk, prog)
+    run_concrete_history(chk, prog)
     # contracts of other parts of the library this check takes for granted (summaries, token model, reference grammar):
     # the clauses that check the source against them, replayed under this property (props/contracts.py)
     from .contracts import run_contracts
